@@ -111,7 +111,18 @@ pub fn eval(index: u64, s: &str, st: &mut Stats) -> &'static str {
                         viol("unspecified-string-accepted-with-wrong-value", format!("if accepted: {:?}", i), st);
                     }
                 }
-                (ImplTs::Ok { .. }, None) => {}
+                (ImplTs::Ok { secs, nanos, sts_line }, None) => {
+                    // whether such a string is accepted is not stated; if it is, it still has to denote an instant,
+                    // and the string-to-sign line has to be that instant's rendering (fields within 00..59)
+                    let denoted = Instant::new(*secs, 0);
+                    if *nanos >= 1_000_000_000 || ((1..=9999).contains(&denoted.year()) && *sts_line != denoted.compact()) {
+                        viol(
+                            "unspecified-string-accepted-but-string-to-sign-line-is-not-the-rendering-of-its-instant",
+                            format!("if accepted: nanoseconds < 10^9 and line {}", denoted.compact()),
+                            st,
+                        );
+                    }
+                }
                 (ImplTs::Err { kind, .. }, _) => {
                     if *kind != Kind::IncompleteSignature {
                         viol("wrong-error-kind", "IncompleteSignature if refused".into(), st);
@@ -162,6 +173,23 @@ fn corpus(thorough: bool) -> Vec<String> {
             for d in 0..=32 {
                 set.insert(format!("{:04}{:02}{:02}T000000Z", y, m, d));
                 set.insert(format!("{:04}-{:02}-{:02}T23:59:59+00:00", y, m, d));
+            }
+        }
+    }
+    // full product of the boundary values of every field (several fields at their limits at once, with offsets that
+    // carry the instant across a minute / day / month / year boundary)
+    for (mo, da) in [("01", "01"), ("02", "28"), ("02", "29"), ("02", "30"), ("12", "31"), ("12", "32"), ("13", "01"), ("00", "10"), ("06", "30"), ("06", "31")] {
+        for hh in ["00", "12", "22", "23", "24"] {
+            for mi in ["00", "29", "58", "59", "60"] {
+                for ss in ["00", "58", "59", "60", "61"] {
+                    for (zb, ze) in [("Z", "Z"), ("+0000", "+00:00"), ("+0001", "+00:01"), ("-0001", "-00:01"), ("+0100", "+01:00"), ("-0100", "-01:00"), ("+0530", "+05:30"), ("-0800", "-08:00"), ("+1400", "+14:00"), ("-1200", "-12:00")] {
+                        set.insert(format!("2016{}{}T{}{}{}{}", mo, da, hh, mi, ss, zb));
+                        if thorough {
+                            set.insert(format!("2016-{}-{}T{}:{}:{}.5{}", mo, da, hh, mi, ss, ze));
+                            set.insert(format!("2015{}{}T{}{}{}{}", mo, da, hh, mi, ss, zb));
+                        }
+                    }
+                }
             }
         }
     }
@@ -373,11 +401,11 @@ pub fn run(ctx: &Ctx) -> Report {
 
     Report {
         stats: st,
-        rule: "every value 00..99 of month, day, hour, minute, second, offset hour and offset minute (basic and extended form); 9 years x boundary instants; every day 00..32 of every month of 2015, 2016, 1900, 2000 in two forms; all 2^5 separator combinations; every offset hh(00..99) x mm(00..99) x sign (basic; extended for all in thorough); 12 zone designators; all 2^5 combinations of blank-padded / one-digit fields in four layouts; fractions of 0..12 and 13..10000 digits with '.' and ','; every string at edit distance 1 (insert/delete/substitute over 23 characters incl. 3 non-ASCII) from six bases (thorough: also every pair of substitutions and substitution+insertion on two bases); every ordered pair over ~70 related strings (six well-formed timestamps and their look-alikes: separators removed / added, zone dropped, case, blanks, one digit changed) parsed back to back on one thread; each string is evaluated through the unstable API (value and string-to-sign line compared with the reference parser) and end to end on the header carrier (bare and space-padded) and the query carrier. states = distinct reference instants + reject class; non-trivial = distinct strings".into(),
+        rule: "every value 00..99 of month, day, hour, minute, second, offset hour and offset minute (basic and extended form); 9 years x boundary instants; every day 00..32 of every month of 2015, 2016, 1900, 2000 in two forms; the full product of boundary values of month/day (10 pairs) x hour (5) x minute (5) x second (5, incl. 60 and 61) x 10 zones; all 2^5 separator combinations; every offset hh(00..99) x mm(00..99) x sign (basic; extended for all in thorough); 12 zone designators; all 2^5 combinations of blank-padded / one-digit fields in four layouts; fractions of 0..12 and 13..10000 digits with '.' and ','; every string at edit distance 1 (insert/delete/substitute over 23 characters incl. 3 non-ASCII) from six bases (thorough: also every pair of substitutions and substitution+insertion on two bases); every ordered pair over ~70 related strings (six well-formed timestamps and their look-alikes: separators removed / added, zone dropped, case, blanks, one digit changed) parsed back to back on one thread; each string is evaluated through the unstable API (value and string-to-sign line compared with the reference parser) and end to end on the header carrier (bare and space-padded) and the query carrier. states = distinct reference instants + reject class; non-trivial = distinct strings".into(),
         bounds: json!({"strings": n}),
         exhaustive: true,
         assumptions: vec![
-            "Unspecified (accepted value still checked, acceptance itself not judged): mixed basic/extended separators, lower-case t/z, second 60, offset hours 15-23, year 0000, UTC year outside 0001-9999".into(),
+            "Unspecified (accepted value still checked, acceptance itself not judged): mixed basic/extended separators, lower-case t/z, second 60 (if accepted, the string-to-sign line must still be the rendering of the instant returned), offset hours 15-23, year 0000, UTC year outside 0001-9999".into(),
         ],
         extra: json!({}),
     }
